@@ -35,6 +35,60 @@ let parse (s : string) : item =
   if !pos <> n then failwith "trailing"; x
 
 
+(* ---- Typed.v descriptors written as Gallina terms (harness/rlptypes.Describe), for
+   types outside the generated registry: typed_ty <hex of descriptor> <hex input> ---- *)
+let ty_tokens (s : string) : string list =
+  let toks = ref [] and cur = Buffer.create 16 in
+  let flush () = if Buffer.length cur > 0 then (toks := Buffer.contents cur :: !toks; Buffer.clear cur) in
+  String.iter (fun ch -> match ch with
+    | '(' | ')' | '[' | ']' | ';' -> flush (); toks := String.make 1 ch :: !toks
+    | ' ' | '\t' | '\n' -> flush ()
+    | _ -> Buffer.add_char cur ch) s;
+  flush (); List.rev !toks
+
+let parse_ty (s : string) : ty =
+  let toks = ref (ty_tokens s) in
+  let next () = match !toks with t :: r -> toks := r; t | [] -> failwith "ty: eof" in
+  let peek () = match !toks with t :: _ -> t | [] -> "" in
+  let expect t = if next () <> t then failwith ("ty: expected " ^ t) in
+  let rec ty () =
+    match next () with
+    | "(" -> let t = ty () in expect ")"; t
+    | "TUint" -> TUint (n_of_string (next ()))
+    | "TBig" -> TBig | "TBool" -> TBool | "TBytes" -> TBytes | "TIface" -> TIface | "TStatus" -> TStatus
+    | "TByteArr" -> TByteArr (n_of_string (next ()))
+    | "TSlice" -> TSlice (ty ())
+    | "TArr" -> let n = n_of_string (next ()) in TArr (n, ty ())
+    | "TPtr" -> TPtr (ty ())
+    | "TNilPtr" -> TNilPtr (ty ())
+    | "TStruct" ->
+      expect "[";
+      let fs = ref [] in
+      if peek () = "]" then ignore (next ())
+      else begin
+        let continue = ref true in
+        while !continue do
+          fs := ty () :: !fs;
+          match next () with ";" -> () | "]" -> continue := false | _ -> failwith "ty: field list"
+        done
+      end;
+      let tail = match next () with
+        | "None" -> None
+        | "(" -> expect "Some"; let t = ty () in expect ")"; Some t
+        | _ -> failwith "ty: tail" in
+      TStruct (List.rev !fs, tail)
+    | t -> failwith ("ty: unknown " ^ t) in
+  let t = ty () in
+  if !toks <> [] then failwith "ty: trailing"; t
+
+let ty_cache : (string, ty) Hashtbl.t = Hashtbl.create 16
+let ty_of_hex (h : string) : ty =
+  match Hashtbl.find_opt ty_cache h with
+  | Some t -> t
+  | None ->
+    let str = String.concat "" (List.map (fun b -> String.make 1 (Char.chr (int_of_byte b))) (bytes_of_hex h)) in
+    let t = parse_ty str in Hashtbl.add ty_cache h t; t
+
 (* ---- rlp.Stream, code-shaped model (coq/Rlp/StreamModel.v) ---- *)
 let serr_name (e : serr) : string =
   match e with
@@ -100,6 +154,14 @@ let handle (toks : string list) : string =
      | None -> "driver-error unknown-type"
      | Some None -> "err"
      | Some (Some b) -> "ok " ^ hex_of_bytes b)
+  (* typed_ty <hex of the ASCII Typed.v descriptor> <hex>: typed_recode at an explicit descriptor *)
+  | ["typed_ty"; d; h] ->
+    (match (try Some (ty_of_hex d) with Failure _ -> None) with
+     | None -> "driver-error bad-descriptor"
+     | Some t ->
+       (match dec_typed t (bytes_of_hex h) with
+        | None -> "err"
+        | Some v -> (match enc_typed t v with Some b -> "ok " ^ hex_of_bytes b | None -> "err")))
   (* stream_walk <inputLimit> <reader is *bytes.Reader: 0|1> <hex> *)
   | ["stream_walk"; lim; br; h] ->
     (match stream_walk (bytes_of_hex h) (n_of_string lim) (br = "1") with
